@@ -10,7 +10,7 @@ ex = S.ex
 PROP = "C20"
 META = {
     "level": "exploration",
-    "claim": "Held on the executed runs: SmartCloudSync over mock providers is driven through sequences of remote creates / edits / deletes / renames (within and across folders) / mkdirs, local deletes of downloaded files, local creates / edits, requests and un-requests by path and by id, with auto-sync predicates {never, by extension, random table} and random engine-step interleavings; at every quiescent point the local tree equals the model (all folders mirrored; a remote-only file is present locally iff it was requested by path, id or predicate and not un-requested; local creations are on the remote side; requested files track remote edits and local edits reach the remote), un-requesting never touches the remote copy and first uploads a newer local edit, and the merged listing of every folder reports each local file as synced and each not-downloaded remote file as not synced.",
+    "claim": "Held on the executed runs: SmartCloudSync over mock providers is driven through sequences of remote creates / edits / deletes / renames (within and across folders) / mkdirs, local deletes of downloaded files, local creates / edits, requests and un-requests by path and by id, requests whose download fails at once (transient fault of the local create) followed by an un-request of the never-downloaded file, with auto-sync predicates {never, by extension, random table} and random engine-step interleavings; at every quiescent point the local tree equals the model (all folders mirrored; a remote-only file is present locally iff it was requested by path, id or predicate and not un-requested; local creations are on the remote side; requested files track remote edits and local edits reach the remote), un-requesting never touches the remote copy and first uploads a newer local edit, and the merged listing of every folder reports each local file as synced and each not-downloaded remote file as not synced.",
     "note": "Trusted: the sequential model of the statement (operations on one file never race with each other: the harness quiesces between two operations on the same file; operations on different files interleave freely with engine steps). Flavours: local path-id or id-style, remote id-style (as the suite pairs them).",
     "technique": "runtime monitoring: model-based comparison of trees and merged listings at quiescent points of generated on-demand histories",
     "plan": {"quick": {"shards": 16, "timeout": 600, "cases": 9000},
@@ -164,7 +164,7 @@ def run_case(seed, index, acc=None, count=True):
             if probs:
                 break
             k = rng.choice(("rcreate", "rcreate", "rwrite", "rdelete", "lcreate", "lwrite", "request", "request", "unrequest",
-                            "rmkdir", "rrename", "ldelete"))
+                            "rmkdir", "rrename", "ldelete", "reqfail"))
             if forced:
                 k = forced.pop(0)       # every fifth case starts with a request -> un-request -> request cycle and edits
                 quiesce_and_check()
@@ -282,6 +282,49 @@ def run_case(seed, index, acc=None, count=True):
                 files[p]["local"] = True
                 files[p]["req"] = True
                 dirty.add(p)
+            elif k == "reqfail":
+                # a request whose download fails at once (transient fault of the local create), after which the application
+                # gives the file up again: it was requested but never downloaded, and must stay remote-only
+                c = [p for p, v in files.items() if v["rdata"] is not None and not v["local"] and p not in dirty and not wants(p)]
+                if not c:
+                    continue
+                quiesce_and_check()
+                if probs:
+                    break
+                p = rng.choice(c)
+                info = sim.providers[1].info_path(sim.abspath(1, p))
+                lp = sim.providers[0]
+                hit = []
+
+                def flaky(*a, **kw):
+                    hit.append(1)
+                    raise ex.CloudTemporaryError("injected: local create fails once")
+                lp.create = flaky
+                raised = False
+                try:
+                    engine_call(sim.cs.smart_sync_oid, info.oid)
+                except ex.CloudException:
+                    raised = True
+                finally:
+                    lp.__dict__.pop("create", None)
+                if not hit or not raised or sim.providers[0].info_path(sim.abspath(0, p)) is not None:
+                    # the fault did not take (nothing to give up): an ordinary request
+                    files[p]["local"] = True
+                    files[p]["req"] = True
+                    dirty.add(p)
+                    stats["requests"] += 1
+                else:
+                    stats["requests_failed_then_given_up"] = stats.get("requests_failed_then_given_up", 0) + 1
+                    n0 = len(sim.world.calls)
+                    try:
+                        engine_call(sim.cs.smart_unsync_oid, info.oid)
+                    except ex.CloudException as e:
+                        probs.append(("unrequest_raised", p, type(e).__name__, str(e)[:80]))
+                    for c2 in sim.world.calls[n0:]:
+                        if c2["side"] == 1 and c2["op"] in ("delete", "rename") and c2.get("ok"):
+                            probs.append(("unrequest_touched_the_remote_copy", O.brief_call(c2)))
+                    files[p]["unreq"] = True
+                    dirty.add(p)
             elif k == "unrequest":
                 c = [p for p, v in files.items() if v["local"] and v.get("req") and v["rdata"] is not None and p not in dirty
                      and not wants(p)]
@@ -333,6 +376,7 @@ def run_case(seed, index, acc=None, count=True):
             acc.count("engine_steps", sim.steps)
             acc.count("requests", stats["requests"])
             acc.count("unrequests", stats["unrequests"])
+            acc.count("requests_failed_then_given_up", stats.get("requests_failed_then_given_up", 0))
             acc.count("requests_of_files_un_requested_before", stats.get("rerequests", 0))
             acc.count("listings_checked", stats["listings"])
             acc.count("listings_checked_between_engine_steps", stats.get("listings_mid_run", 0))
